@@ -62,10 +62,33 @@ fn run_rec(cfg: &Cfg, vecs: &[Vector], out: &mut Vec<Obs>) {
         }
         Outcome::Panic(m) if vecs.len() == 1 => out.push(Obs::Panic(m)),
         Outcome::IoErr(m) if vecs.len() == 1 => out.push(Obs::IoErr(m)),
-        _ => {
+        failed => {
+            let start = out.len();
             let step = vecs.len().div_ceil(8).max(1);
             for c in vecs.chunks(step) {
                 run_rec(cfg, c, out);
+            }
+            // the chunk failed but no part of it does on its own: the failure needs two adjacent
+            // vectors that the split separated - test every split boundary as a pair
+            let any_inside = out[start..].iter().any(|o| matches!(o, Obs::Panic(_) | Obs::IoErr(_)));
+            if !any_inside && vecs.len() > 1 {
+                let mut k = step;
+                while k < vecs.len() {
+                    let pair = &vecs[k - 1..=k];
+                    let mut content = Vec::new();
+                    for v in pair {
+                        content.extend_from_slice(&join_lines(&v.lines));
+                    }
+                    let t = new_table();
+                    let o = run_file(cfg, &content, &t);
+                    if !o.is_ok() {
+                        let m = format!("only together with the neighbouring vector: {}", o.label());
+                        out[start + k - 1] = Obs::Panic(m.clone());
+                        out[start + k] = Obs::Panic(m);
+                    }
+                    k += step;
+                }
+                let _ = failed;
             }
         }
     }
